@@ -125,7 +125,9 @@ def tables(cfg, crate, rep):
     rep.fn(fn)
     v = core(Interp(crate).run_fn(fn)["value"])
     txt = v.r()
-    ok = "KeyUsagePurpose::from_u16(core::num::reverse_bits(" in txt and ".flags" in txt and "TbsCertificate::key_usage" in txt
+    inner = core(v.fields.get("0")) if isinstance(v, StructV) and v.variant == "Ok" else v
+    ok = isinstance(inner, CallV) and inner.callee == "KeyUsagePurpose::from_u16" and isinstance(core(inner.args[0]), CallV) and core(inner.args[0]).callee.endswith("::reverse_bits") \
+        and "sel:.flags" in roots(inner) and any(c.endswith("TbsCertificate::key_usage") for c in calls_of(inner))
     rep.ob("C17.tables", "%s|%s" % (cfg, fn), ok, "key usage = from_u16(reverse_bits(flags)) of the certificate's KeyUsage (absent -> empty)", found=txt[:160])
     # EKU
     fn = P + "convert_x509_extended_key_usages"
